@@ -219,6 +219,9 @@ func sortedOps(m map[string]interface{}) []string {
 
 var garbage = [][]byte{{}, {0xf6}, {0xf7}, {0xa0}, {0x80}, {0x40}, {0x60}, {0x00}, {0x20}, {0xf4}, {0xf5}, {0xff}, {0xbf, 0xff}, {0x9f, 0xff}, {0x5f, 0xff}, {0xa1}, {0xa1, 0x60}, {0xc0, 0x00}, {0xfb}, {0x1b}, {0x58}, {0x41, 0xa0}, {0x42, 0xa0, 0xf6}}
 
+// allInstances: every valid instance of every kind (for the cross-type corruptions).
+var allInstances []*instance
+
 func catalogue(in *instance, emit emitFn) {
 	t := in.tree
 	light := in.kind.wrapped && !vkit.Thorough()
@@ -318,6 +321,15 @@ func catalogue(in *instance, emit emitFn) {
 		g := g
 		emit("garbage", "", fmt.Sprintf("%x", g), j, "", func() []byte { return append([]byte{}, g...) })
 	}
+	// (g) the VALID encoding of an instance of every OTHER result type (stored blobs mixed up: the two Doerner
+	// configurations, for instance, have the same field names and differ only in what their fields hold)
+	for j, o := range allInstances {
+		if o.kind == in.kind || o.n != in.n || o.t != in.t || o.id != in.id {
+			continue
+		}
+		o := o
+		emit("cross-type", "", o.kind.name, j, "", func() []byte { return append([]byte{}, o.valid...) })
+	}
 	for j, l := range []int{16, len(in.valid)} {
 		l, j := l, j
 		emit("garbage", "", fmt.Sprintf("random-%d-bytes", l), len(garbage)+j, "", func() []byte {
@@ -395,6 +407,7 @@ func main() {
 	// the instances are needed by every shard (the catalogue is sharded by case index)
 	t0 := time.Now()
 	insts, err := buildInstances()
+	allInstances = insts
 	if err != nil {
 		res.Hard("cannot build the valid instances: " + err.Error())
 		res.Finish()
